@@ -1,0 +1,13 @@
+//go:build verif
+
+package event
+
+import "github.com/keep-network/keep-common/pkg/cache"
+
+// Verification hook (build tag verif): re-exports existing identifiers only.
+
+// VerifC37SeedCache returns the time cache backing NotifyDKGStarted, so that
+// a test clock can age its entries.
+func (d *Deduplicator) VerifC37SeedCache() *cache.TimeCache {
+	return d.dkgSeedCache
+}
